@@ -216,6 +216,40 @@ def procLabel (F : Flat) (i : Nat) : String :=
     | some p => (match p.kind with | .comb => "always_comb:" | .ff => "always_ff:" | .assign => "assign:" | .param => "localparam:") ++ p.name
     | none => "?"
 
+/-- order the processes so that writers come before readers where possible (Kahn on variable names);
+    the settled store does not depend on the order (`settle` sweeps until nothing changes), this only
+    saves sweeps -/
+def topoProcs (Γ : Env) (ps : List Proc) : List Proc := Id.run do
+  let arr := ps.toArray
+  let n := arr.size
+  let ws : Array (List String) := arr.map fun p => ((wset Γ p.body).map (·.x)).eraseDups
+  let rs : Array (List String) := arr.map fun p => (rset p.body).eraseDups
+  let mut writers : Std.HashMap String (List Nat) := {}
+  for i in [0:n] do
+    for x in ws[i]! do
+      writers := writers.insert x (i :: (writers.getD x []))
+  -- indegree = number of distinct other processes writing something this process reads
+  let mut preds : Array (List Nat) := Array.replicate n []
+  for i in [0:n] do
+    let mut ps : List Nat := []
+    for x in rs[i]! do
+      for j in writers.getD x [] do
+        if j != i && !ps.contains j then ps := j :: ps
+    preds := preds.set! i ps
+  let mut done : Array Bool := Array.replicate n false
+  let mut out : Array Proc := #[]
+  -- repeated passes: emit every process all of whose predecessors are emitted; break cycles by position
+  for _ in [0:n] do
+    let mut progress := false
+    for i in [0:n] do
+      if !done[i]! && (preds[i]!).all (fun j => done[j]!) then
+        out := out.push arr[i]!; done := done.set! i true; progress := true
+    if !progress then
+      match (List.range n).find? (fun i => !done[i]!) with
+      | some i => out := out.push arr[i]!; done := done.set! i true
+      | none => break
+  return out.toList
+
 def simReply (mods : List Module) (top : String) (cycles : List Cyc) (obs : List String) : String :=
   let F := flatten mods top
   let dm := declMap F.decls
@@ -225,8 +259,9 @@ def simReply (mods : List Module) (top : String) (cycles : List Cyc) (obs : List
   let confl := driverConflicts ws
   let multi := confl.map fun (i, j, x) => "(" ++ x ++ " " ++ procLabel F i ++ " " ++ procLabel F j ++ ")"
   let und := undriven F ws
-  let t0 := runSim false F Γ cycles obs
-  let t1 := runSim true F Γ cycles obs
+  let Fs := { F with procs := topoProcs Γ F.procs }
+  let t0 := runSim false Fs Γ cycles obs
+  let t1 := runSim true Fs Γ cycles obs
   "ok (errors " ++ " ".intercalate errs ++ ") (multi " ++ " ".intercalate multi ++ ") (undriven " ++
     " ".intercalate und ++ ") (castB " ++ (if t0 == t1 then "same" else "diff") ++ ") " ++ t0
 
